@@ -82,7 +82,7 @@ TEXTS = {
   technique='Lean 4 invariant + refinement proof (Kahn, concrete graph) + differential correspondence',
  ),
  'C16': dict(
-  text='Proved in Lean: consume_total (every author of the list resolves to an index within range) and consume_same_email (same lower-cased e-mail => same developer), descr_exact and descr_disjoint (the description of a developer lists exactly the names and e-mails that resolve to it, and no name or e-mail appears under two developers). Models of GeneratePeopleDict+Consume and of MergeReversedDictsIdentities are compared with the real functions on every run; the component structure of merges is checked Go-side on well-formed lists (non-well-formed lists: known finding D9).',
+  text='Proved in Lean: consume_total (every author of the list resolves to an index within range) and consume_same_email (same lower-cased e-mail => same developer), descr_exact and descr_disjoint (the description of a developer lists exactly the names and e-mails that resolve to it, and no name or e-mail appears under two developers). Merge half: walks_components (for input lists whose entries are pairwise token-disjoint - which descr_disjoint establishes for generated lists - the walks of MergeReversedDictsIdentities are exactly the connected components: every identity inside one walk, walks pairwise disjoint and duplicate-free, two tokens in one walk iff connected), descr_eq (merged descriptions = the walks), mergeDicts_index (every input identity gets an entry whose merged index names the walk holding all of its tokens and whose first/second pointer is its original position), same_index_iff (two identities share a merged index iff connected); the premises are decidable (premisesCheck_sound) and evaluated on every well-formed pair of the probe. Models of GeneratePeopleDict+Consume and of MergeReversedDictsIdentities are compared with the real functions on every run; the component structure is also checked Go-side (lists with a token shared inside one list: outside the premise, design finding D9).',
   note=COMMON_NOTE + 'strings.ToLower is an abstract idempotent function; mailmap parsing not modelled.',
   technique='Lean 4 proof + differential correspondence',
  ),
